@@ -124,6 +124,35 @@ func (g *Gen) runOnce() {
 		}
 		st.cells["ghost:"+gv.Name] = Val{T: init}
 	}
+	// ghost variables declared by other contracts (abstract interfaces mention them): unconstrained here
+	{
+		declared := map[string]bool{}
+		for _, gv := range con.Ghosts {
+			declared[gv.Name] = true
+		}
+		var names []string
+		for n := range g.P.ghostDecls {
+			if !declared[n] {
+				names = append(names, n)
+			}
+		}
+		sort.Strings(names)
+		for _, n := range names {
+			gv := g.P.ghostDecls[n]
+			env := g.envFor(fr, st)
+			if pk, ok := g.P.allPkgs[g.P.ghostPkg[n]]; ok {
+				env.pkg = pk.Types
+			}
+			ty, srt := env.typeByName(gv.Type)
+			g.ghostT[n] = srt
+			g.ghostGoT[n] = ty
+			c := "ghx_" + mangle(n)
+			if !g.sc.has(c) {
+				g.sc.add([]string{c}, fmt.Sprintf("(declare-const %s %s)", c, srt))
+			}
+			st.cells["ghost:"+n] = Val{T: c}
+		}
+	}
 	fr.entry = st // provisional for old() inside requires
 	if pk := pkgOf(fn); pk != nil {
 		for _, ax := range g.P.axioms[pk.Path()] {
@@ -438,6 +467,28 @@ func (g *Gen) recvAssume(fr *Frame, st *State, ch ssa.Value, val string, elemT t
 	}
 }
 
+// recvSets: ghost updates "set g = e after recv CH"; happened says whether the receive took place
+// (a select arm), ok whether a value was delivered (false: channel closed).
+func (g *Gen) recvSets(fr *Frame, st *State, ch ssa.Value, val string, elemT types.Type, ok, happened string) {
+	con := g.anchorContract(fr)
+	if con == nil || g.specMode {
+		return
+	}
+	name := g.chanName(fr, ch)
+	for _, s := range con.Sets {
+		if s.Recv != name || name == "" {
+			continue
+		}
+		key := "ghost:" + s.Ghost
+		old := st.cells[key]
+		g.ghostSet(fr, st, s, map[string]CV{"recv": {T: val, Ty: elemT}, "recvok": {T: ok, Ty: boolT}})
+		if happened != "true" {
+			srt := g.ghostT[s.Ghost]
+			st.cells[key] = Val{T: g.define("gh_"+s.Ghost, srt, ite(happened, st.cells[key].T, old.T))}
+		}
+	}
+}
+
 // chanName resolves the source-level name of a channel operand (parameter, local or captured variable).
 func (g *Gen) chanName(fr *Frame, v ssa.Value) string {
 	switch x := v.(type) {
@@ -458,6 +509,28 @@ func (g *Gen) chanName(fr *Frame, v ssa.Value) string {
 		}
 	case *ssa.FreeVar:
 		return x.Name()
+	case *ssa.Call:
+		// the result of a method call on a named value, e.g. ctx.Done()
+		c := x.Common()
+		recvName := ""
+		var recv ssa.Value
+		if c.IsInvoke() {
+			recv = c.Value
+		} else if len(c.Args) > 0 && c.Signature().Recv() != nil {
+			recv = c.Args[0]
+		}
+		if recv != nil {
+			recvName = g.chanName(fr, recv)
+		}
+		mname := ""
+		if c.IsInvoke() {
+			mname = c.Method.Name()
+		} else if f := c.StaticCallee(); f != nil {
+			mname = f.Name()
+		}
+		if recvName != "" && mname != "" {
+			return recvName + "." + mname + "()"
+		}
 	}
 	return ""
 }
